@@ -298,3 +298,41 @@ Proof.
   - change (2 ^ (7 * 0)) with 1. lia.
   - reflexivity.
 Qed.
+
+(* ------------------------------------------------------------------------------------------ *)
+(* the executable well-formedness test is the predicate                                       *)
+
+Lemma forallb_Forall {A} (p : A -> bool) (P : A -> Prop) (l : list A) :
+  (forall x, p x = true <-> P x) -> (forallb p l = true <-> Forall P l).
+Proof.
+  intros H. rewrite forallb_forall, Forall_forall. split; intros H1 x Hx; apply H, H1, Hx.
+Qed.
+
+Lemma wf_entryb_spec e : wf_entryb e = true <-> wf_entry e.
+Proof.
+  unfold wf_entryb, wf_entry. rewrite !andb_true_iff, wf_bytesb_spec, !N.ltb_lt. tauto.
+Qed.
+
+Lemma wf_wantlistb_spec w : wf_wantlistb w = true <-> wf_wantlist w.
+Proof.
+  unfold wf_wantlistb, wf_wantlist.
+  rewrite andb_true_iff, (forallb_Forall _ _ _ wf_entryb_spec), N.ltb_lt. tauto.
+Qed.
+
+Lemma wf_blockb_spec b : wf_blockb b = true <-> wf_block b.
+Proof.
+  unfold wf_blockb, wf_block. rewrite !andb_true_iff, !wf_bytesb_spec, N.ltb_lt. tauto.
+Qed.
+
+Lemma wf_presenceb_spec p : wf_presenceb p = true <-> wf_presence p.
+Proof.
+  unfold wf_presenceb, wf_presence. rewrite andb_true_iff, wf_bytesb_spec, N.ltb_lt. tauto.
+Qed.
+
+Lemma wf_messageb_spec m : wf_messageb m = true <-> wf_message m.
+Proof.
+  unfold wf_messageb, wf_message.
+  rewrite !andb_true_iff, (forallb_Forall _ _ _ wf_blockb_spec),
+    (forallb_Forall _ _ _ wf_presenceb_spec), !N.ltb_lt.
+  destruct (m_wantlist m) as [w|]; [rewrite wf_wantlistb_spec|]; intuition.
+Qed.
